@@ -26,7 +26,34 @@ _K2_NOTE = ("Trusted: the rxvc VC generator; z3/cvc5; the spec machines in /veri
             "AutoDetachObserver clause of C01. Counter-models are replayed by a native history runner (bounded).")
 _K2_TECH = "K2 class refinement against a spec machine with the call-out discipline (invariant at every call-out), SMT-discharged"
 
+_K4_NOTE = ("Trusted: the scope classification in /verif/rxvc/frame.py (which nested function is the subscription function: the one "
+            "handed to Observable(...)/defer/create or named subscribe/_subscribe_core) and its list of mutating operations (assignment "
+            "through nonlocal, item assignment/deletion, list/dict/set/deque mutators, next(), for over a one-shot iterator, handing a "
+            "one-shot iterator to an Iterable parameter of an observable factory). Decided on the AST of the real functions, no solver. "
+            "Library code is deterministic given the callbacks (A-cb); that freshly allocated per-subscription state yields the same "
+            "trace again is the K1 step functions being functions (C05..). Admitted narrowly and listed in the module docstring: "
+            "idempotent `v = sched.to_timedelta(v)`, draining the re-iterable infinite(), multicast operators exempt from C04 only.")
+
 CHECKS = {
+    "C04": {
+        "text": "Frame condition on every operator/factory function of reactivex/operators and reactivex/observable (175 functions): "
+                "everything modified by the subscription function or anything nested in it (handlers, scheduled actions, disposers) is "
+                "bound at subscription or event scope; consuming an iterator counts as a write, and a one-shot iterator built at "
+                "application scope may not be handed to a callee's Iterable parameter. Hence indices, budgets, queues, iterators over "
+                "argument lists and fallback sequences start fresh for every subscription of the same observable object, for all "
+                "pipelines built from these functions.",
+        "note": _K4_NOTE,
+        "technique": "K4 frame / allocation-scope conditions over the real AST (modifies-clause check), native double-subscription replay",
+    },
+    "C44": {
+        "text": "Frame condition on every operator factory: nothing at application, subscription or event scope writes a name bound at "
+                "factory scope, no mutable object allocated at factory scope (subject, list, dict, iterator) is used by the application "
+                "function or captured by the returned operator; curry_flip'd operators have no factory-scope state by construction "
+                "(their whole body runs per application). Hence one operator object applied to several sources shares nothing between "
+                "the applications.",
+        "note": _K4_NOTE + " curry_flip itself is executed by the interpreter in every K1 unit (C05) from its real source.",
+        "technique": "K4 frame / allocation-scope conditions over the real AST, native two-sources replay",
+    },
     "C01": {
         "text": "Two contracts that together cover every edge of every pipeline. (1) AutoDetachObserver and Observer: each method of "
                 "the real class refines a gate spec whose user-callback calls are preceded by the assertion 'no terminal callback was "
